@@ -205,9 +205,12 @@ def generate(seed, prop):
                 t = any_slot("M")
                 if d is not None and t is not None:
                     n = r.randint(1, 16)
-                    emit(["malloc", d, t, n, r.choice(["int", "float", "byte", "double"]), -1, 0, 0])
-                    fillv[0] += 1
-                    emit(["fill", t, fillv[0] % 256])
+                    if r.random() < 0.04:
+                        emit(["malloc", d, t, n, "unreg", -1, 0, 0])     # refused: nothing may be allocated or accounted
+                    else:
+                        emit(["malloc", d, t, n, r.choice(["int", "float", "byte", "double"]), -1, 0, 0])
+                        fillv[0] += 1
+                        emit(["fill", t, fillv[0] % 256])
         elif fam == "swap":
             k = r.choice("MMP")
             i, j = any_slot(k), any_slot(k)
@@ -259,7 +262,7 @@ def generate(seed, prop):
                         off = 0
                     emit(["plus", t, si, off])
                 else:
-                    emit(["cast", t, si, r.choice(hm.DTNAMES)])
+                    emit(["cast", t, si, r.choice(hm.DTNAMES) if r.random() > 0.04 else "unreg"])
         elif fam == "clone":
             s = live_mem_slots()
             t = any_slot("M")
@@ -269,7 +272,7 @@ def generate(seed, prop):
             d = dev_slot()
             t = any_slot("M")
             if d is not None and t is not None:
-                dt = r.choice(["int", "byte", "float", "short", "double"])
+                dt = r.choice(["int", "byte", "float", "short", "double"]) if r.random() > 0.05 else "unreg"
                 n = r.randint(1, hm.HBYTES // DT[dt] // 2)
                 h = r.randrange(hm.NH)
                 x = r.random()
@@ -432,6 +435,9 @@ def _gen_pool(r, m, emit, live_slot, any_slot, dev_slot, fillv):
     if x < 0.6:
         dt = r.choice(["byte", "byte", "int", "float", "double", "short"])
         n = r.choice([1, 3, 7, 16, 32, 40, 64, 100, 128, 130, 200, 256, 300]) if dt == "byte" else r.randint(1, 48)
+        if r.random() < 0.04:
+            emit(["reserve", p, t, n, "unreg"])      # refused: no reservation may stay behind
+            return
         emit(["reserve", p, t, n, dt])
         fillv[0] += 1
         emit(["fill", t, fillv[0] % 256])
